@@ -490,9 +490,8 @@ func (peer *Peer) RoutineSequentialReceiver(maxBatchSize int) {
 					continue
 				}
 				field := elem.packet[IPv6offsetPayloadLength : IPv6offsetPayloadLength+2]
-				length := binary.BigEndian.Uint16(field)
-				length += ipv6.HeaderLen
-				if int(length) > len(elem.packet) {
+				length := int(binary.BigEndian.Uint16(field)) + ipv6.HeaderLen
+				if length > len(elem.packet) {
 					continue
 				}
 				elem.packet = elem.packet[:length]
